@@ -34,6 +34,12 @@ Diff(p, a) ==
   \cup (IF p.post.A # a.post.A \/ p.post.B # a.post.B THEN {"post-state"} ELSE {})
   \cup (IF p.blocks # a.blocks THEN {"blocks"} ELSE {})
 
+\* the recorded transition of each container is a step of the (unbounded, proved) shape model -- spec/ShapeRel.tla
+Shp(s0, c) == IF s0[c].p THEN <<s0[c].sz, s0[c].cap, StN(s0[c]) > 0>> ELSE <<0, NOf(Cfg, c), FALSE>>
+ShapeStepOK(pre, post, c, op) ==
+  \/ ~post[c].p \/ Cfg.max < NOf(Cfg, c) \/ Cfg.vector
+  \/ StepClosed(NOf(Cfg, c), Cfg.max, StepClass(op), Shp(pre, c)[1], Shp(pre, c)[2], Shp(pre, c)[3], Shp(post, c)[1], Shp(post, c)[2], Shp(post, c)[3])
+
 Init == l = 2 /\ st = Empty
 Step ==
   /\ l <= Len(TraceLog)
@@ -48,6 +54,8 @@ Step ==
                     IN /\ PrintT(<<"H", l, {"L2"}>>)
                        /\ (d # {} => PrintT(<<"D", l, ln.op, d>>))
                ELSE TRUE
+            /\ (~Fatal(ln) /\ ~(ShapeStepOK(st, StateOf(ln), "A", ln.op) /\ ShapeStepOK(st, StateOf(ln), "B", ln.op))
+                  => PrintT(<<"D", l, ln.op, {"shape-step-outside-ShapeInd"}>>))
             /\ st' = IF Fatal(ln) THEN Empty ELSE StateOf(ln)
        [] ln.t = "snap" -> st' = StateOf(ln)
        [] ln.t = "reset" -> st' = Empty
